@@ -675,7 +675,7 @@ func genCase(r *Rng, big int) Sx {
 
 func gen(r *Rng, tier string, emit func(c Sx)) {
 	r = NewRng(r.U64())
-	n := 260
+	n := 600
 	if tier == "thorough" {
 		n = 6000
 	}
